@@ -5,22 +5,25 @@ package shell_operator
 // itself (task handlers, combining, event handlers) is the real one.
 
 import (
+	"context"
 	"github.com/deckhouse/deckhouse/pkg/log"
 
 	"github.com/flant/shell-operator/pkg/hook"
 	"github.com/flant/shell-operator/pkg/hook/config"
 	kubeeventsmanager "github.com/flant/shell-operator/pkg/kube_events_manager"
 	"github.com/flant/shell-operator/pkg/metric"
+	schedulemanager "github.com/flant/shell-operator/pkg/schedule_manager"
 	"github.com/flant/shell-operator/pkg/task/queue"
 	zz "github.com/flant/shell-operator/pkg/zzverif"
 )
 
 type vhEnv struct {
-	op      *ShellOperator
-	kmgr    *kubeeventsmanager.VFakeManager
-	mstor   *metric.VFakeStorage
-	hmstor  *metric.VFakeStorage
-	hooks   []*hook.Hook
+	op     *ShellOperator
+	kmgr   *kubeeventsmanager.VFakeManager
+	mstor  *metric.VFakeStorage
+	hmstor *metric.VFakeStorage
+	hooks  []*hook.Hook
+	smgr   *schedulemanager.VFakeScheduleManager
 }
 
 func vhNewEnv() *vhEnv {
@@ -28,7 +31,10 @@ func vhNewEnv() *vhEnv {
 	e := &vhEnv{kmgr: kubeeventsmanager.VNewFakeManager(), mstor: &metric.VFakeStorage{}, hmstor: &metric.VFakeStorage{}}
 	e.op = &ShellOperator{logger: log.NewNop(), MetricStorage: e.mstor, HookMetricStorage: e.hmstor}
 	e.op.TaskQueues = queue.NewTaskQueueSet()
+	e.op.TaskQueues.WithContext(context.Background())
 	e.op.KubeEventsManager = e.kmgr
+	e.smgr = schedulemanager.VNewFakeScheduleManager()
+	e.op.ScheduleManager = e.smgr
 	hook.VRateWaitFn = func(h *hook.Hook) error { return nil }
 	return e
 }
